@@ -6,6 +6,7 @@ import (
 	"sort"
 	"strings"
 	"sync"
+	"sync/atomic"
 	"testing"
 	"time"
 
@@ -756,6 +757,104 @@ func TestC07DialHook(t *testing.T) {
 		})
 		if fmt.Sprint(got) != fmt.Sprint(wantLive) {
 			t.Fatalf("C07 violated: after a dial (hook reject=%v, hook SetID=%s) the dialling peer lists %v, live sessions are %v", reject, idMode, got, wantLive)
+		}
+	})
+}
+
+// retryHook refuses the first `refuse` dial attempts and names the session anew on every attempt.
+type retryHook struct {
+	refuse, attempts int32
+	setIDs           bool
+}
+
+func (h *retryHook) Name() string { return "c07retry" }
+func (h *retryHook) PostDial(s erpc.PreSession, isRedial bool) *erpc.Status {
+	n := atomic.AddInt32(&h.attempts, 1)
+	if h.setIDs {
+		s.SetID(fmt.Sprintf("try-%d", n))
+	}
+	if n <= atomic.LoadInt32(&h.refuse) {
+		return erpc.NewStatus(403, "refused for now", "c07")
+	}
+	return nil
+}
+
+// TestC07DialRetries: Dial with a retry budget runs its hooks once per attempt; ids assigned by
+// the hooks of refused attempts leave nothing behind in the index.
+func TestC07DialRetries(t *testing.T) {
+	rec := vt.NewRec(t, "C07", "dial-retries", "Dial over loopback TCP by a peer with a retry budget of 1-3; the dial hook names the session anew on every attempt (or not at all) and refuses the first K attempts (K from 0 to budget+2); oracle: Dial succeeds iff an attempt was accepted within the budget; afterwards the dialling peer lists exactly the established session (under the id of the accepted attempt) or nothing, every listed session is healthy, and after closing it nothing is listed; non-trivial = K >= 1 with ids assigned; distinct by case")
+	rapid.Check(t, func(t *rapid.T) {
+		vt.Init()
+		newLib()
+		budget := int32(rapid.IntRange(1, 3).Draw(t, "budget"))
+		k := int32(rapid.IntRange(0, int(budget)+2).Draw(t, "refuse"))
+		setIDs := rapid.IntRange(0, 3).Draw(t, "setids") != 0
+		rec.Case(fmt.Sprintf("%d|%d|%v", budget, k, setIDs), k >= 1 && setIDs, fmt.Sprintf("budget=%d", budget), fmt.Sprintf("refused=%d", k))
+		if rec.WantSample() && k >= 1 && setIDs {
+			rec.Sample(map[string]interface{}{"budget": budget, "refused_attempts": k, "hook_sets_ids": setIDs})
+		}
+		w := vt.NewWorld()
+		defer w.Close()
+		srv := w.Peer(erpc.PeerConfig{})
+		route, _ := registerLib(srv)
+		ts := &tcpServer{peer: srv}
+		if err := ts.listen(); err != nil {
+			t.Skip("no loopback listener")
+		}
+		defer ts.down()
+		hook := &retryHook{refuse: k, setIDs: setIDs}
+		cli := w.Peer(erpc.PeerConfig{DialTimeout: 2 * time.Second, RedialTimes: budget, RedialInterval: time.Millisecond}, hook)
+		var sess erpc.Session
+		var st *erpc.Status
+		if !vt.Returns(func() { sess, st = cli.Dial(ts.addr) }) {
+			t.Fatalf("%s", vt.Hang("return of Dial"))
+		}
+		attempts := atomic.LoadInt32(&hook.attempts)
+		want := map[string]bool{}
+		if sess != nil {
+			if !st.OK() {
+				t.Fatalf("C07 violated: Dial returned a session and status %v", st)
+			}
+			if attempts <= k {
+				t.Fatalf("C07 violated: Dial returned a session although every one of its %d attempts was refused by the hook", attempts)
+			}
+			if setIDs && sess.ID() != fmt.Sprintf("try-%d", attempts) {
+				t.Fatalf("C07 violated: the session has id %q, the accepted attempt named it %q", sess.ID(), fmt.Sprintf("try-%d", attempts))
+			}
+			want[sess.ID()] = true
+			res := new(LibRes)
+			if cmd := sess.Call(route, &LibArg{Rid: "d", Act: "ret", Val: "v"}, res); !cmd.StatusOK() || res.Val != "v" {
+				t.Fatalf("C07 violated: a call on the dialled session failed: %v", cmd.Status())
+			}
+		} else {
+			if st.OK() {
+				t.Fatalf("C07 violated: Dial returned neither a session nor an error")
+			}
+			if k == 0 {
+				t.Fatalf("C07 violated: Dial failed (%v) although the hook refused nothing", st)
+			}
+		}
+		listed := func() map[string]bool {
+			got := map[string]bool{}
+			cli.RangeSession(func(s erpc.Session) bool {
+				got[s.ID()] = true
+				if !s.Health() {
+					t.Fatalf("C07 violated: the dialling peer lists session %q which is not healthy (budget %d, %d attempts refused)", s.ID(), budget, k)
+				}
+				return true
+			})
+			return got
+		}
+		vt.WaitUntilFor(time.Second, func() bool { return cli.CountSession() == len(want) })
+		if got := listed(); fmt.Sprint(got) != fmt.Sprint(want) || cli.CountSession() != len(want) {
+			t.Fatalf("C07 violated: after Dial (budget %d, first %d attempts refused, hook assigns ids: %v, %d attempts made) the dialling peer lists %v (count %d), established: %v", budget, k, setIDs, attempts, got, cli.CountSession(), want)
+		}
+		if sess != nil {
+			sess.Close()
+			vt.WaitUntilFor(time.Second, func() bool { return cli.CountSession() == 0 })
+			if got := listed(); len(got) != 0 || cli.CountSession() != 0 {
+				t.Fatalf("C07 violated: after closing the only session the dialling peer still lists %v (count %d)", got, cli.CountSession())
+			}
 		}
 	})
 }
